@@ -765,7 +765,9 @@ class Engine:
                 raise Unsupported("item store into possibly aliased container %s" % target.value.id)
             key = self.eval(target.slice, st)
             if isinstance(base, VModel):
-                base.sym_setitem(self, st, key, v)
+                r = base.sym_setitem(self, st, key, v)
+                if isinstance(r, VModel) and isinstance(target.value, ast.Name):
+                    st.env[target.value.id] = r          # a model with value semantics returns its updated self
                 return
             if self.model_hook(base, "setitem", st, key, v) is not NotImplemented:
                 return
